@@ -306,14 +306,60 @@ def realise_options(o, kind):
 
 
 # ------------------------------------------------------------------ drawing records
+_EXPORTS = [0]
+_MISSING = object()
+
+
+def fails_once(inner, at):
+    """A caller's colour callback that raises on its `at`-th call and works ever after (the lookup table was incomplete,
+    the caller catches the KeyError, completes the table and exports the same timeline again)."""
+    st = {"armed": True, "calls": 0}
+
+    def f(d):
+        st["calls"] += 1
+        if st["armed"] and st["calls"] >= at:
+            st["armed"] = False
+            raise KeyError("colour table has no entry yet")
+        return inner(d) if callable(inner) else inner
+    return f
+
+
 def export_both(data, opts, kind):
+    """Both back-ends' exports of the same data and options.  Two instances in seven are exports that come AFTER A FAILED ATTEMPT
+    on the same timeline object: a colour callback that raises once, or a misspelt layering algorithm in the caller's engine
+    options that the caller corrects before trying again.  What is recorded (and judged) is the export that succeeded."""
     out = {}
+    _EXPORTS[0] += 1
+    retry = _EXPORTS[0] % 7
     for backend, cls in (("svg", TimelineSVG), ("tikz", TimelineTex)):
         d = copy.deepcopy(data)
         o = realise_options(opts, kind)
+        wrong = None
+        if retry == 0:
+            for key in ("linkColor", "dotColor", "labelBgColor"):
+                if callable(o.get(key)) or isinstance(o.get(key), str):
+                    o[key] = fails_once(o[key], 1 + (_EXPORTS[0] // 7) % 3)
+                    break
+        elif retry == 1 and isinstance(o.get("labella"), dict):
+            wrong = o["labella"].get("algorithm", _MISSING)
+            o["labella"]["algorithm"] = "overlapp"
         with guard.limit(900):
             tl = cls(d, o)
-            doc = tl.export()
+            try:
+                doc = tl.export()
+            except (KeyError, ValueError):
+                if retry > 1:
+                    raise
+                doc = None
+            if wrong is not None:
+                # the caller corrects the options dict it handed over (the timeline uses that very dict) and exports again
+                if wrong is _MISSING:
+                    del o["labella"]["algorithm"]
+                else:
+                    o["labella"]["algorithm"] = wrong
+                doc = None
+            if doc is None:
+                doc = tl.export()
         if isinstance(doc, bytes):
             doc = doc.decode("utf-8")
         out[backend] = (tl, doc, o)
